@@ -20,17 +20,17 @@ const (
 // cmdSpec is one row of the command table: a command of the dispatcher with
 // arguments that are valid on the seeded dataset.
 type cmdSpec struct {
-	name       string                                // as in commands.json (upper case; "CONFIG GET")
-	args       []string                              // default arguments (complete command)
+	name       string                             // as in commands.json (upper case; "CONFIG GET")
+	args       []string                           // default arguments (complete command)
 	per        func(mode string, e *env) []string // optional per-mode arguments (nil result = default)
-	documented bool                                  // key of commands.json
-	fresh      bool                                  // changes connection state: own connection
-	live       bool                                  // turns the connection into a stream
-	objRead    bool                                  // "object reads and searches" of the statement
-	authExempt bool                                  // PING ECHO QUIT OUTPUT HEALTHZ AUTH
-	devOnly    bool                                  // needs --dev (not used): always "unknown command"
-	unknownOK  bool                                  // legitimately answered "unknown command"
-	needSha    bool                                  // args[1] is replaced by the sha of a loaded script
+	documented bool                               // key of commands.json
+	fresh      bool                               // changes connection state: own connection
+	live       bool                               // turns the connection into a stream
+	objRead    bool                               // "object reads and searches" of the statement
+	authExempt bool                               // PING ECHO QUIT OUTPUT HEALTHZ AUTH
+	devOnly    bool                               // needs --dev (not used): always "unknown command"
+	unknownOK  bool                               // legitimately answered "unknown command"
+	needSha    bool                               // args[1] is replaced by the sha of a loaded script
 }
 
 const trivialScript = "return(1)"
@@ -131,7 +131,7 @@ func theTable() []*cmdSpec {
 		und("PUBLISH", "PUBLISH", "chan1", "hello"),
 		und("MONITOR", "MONITOR"),
 		// --- dev only (server is not started with --dev)
-		und("MASSINSERT", "MASSINSERT", "1", "1"),
+		und("MASSINSERT", "MASSINSERT", "1", "2"),
 		und("SLEEP", "SLEEP", "0"),
 		und("SHUTDOWN", "SHUTDOWN"),
 	}
